@@ -2,7 +2,7 @@
 (***************************************************************************)
 (* C27, archive files -- the index structure of src/utils/archive.rs as    *)
 (* the readers see it: `Archive::open` (l. 121), `find` (l. 496, used by   *)
-(* fetch / RrdpArchive::load_object / load_state), `verify` (l. 145) and   *)
+(* fetch / RrdpArchive::load_object / load_state / publish), `verify` (l. 145) and   *)
 (* `ObjectsIter` (l. 813, RrdpArchive::objects).                           *)
 (*                                                                         *)
 (* File: magic(6) hash_key(16) bucket_count(8) | index: bucket_count + 1   *)
@@ -64,7 +64,8 @@ ApplyCor(c) ==
     [] c.f = "nlen"  -> [Pristine EXCEPT !.nlen[c.t] = c.to]
     [] c.f = "dlen"  -> [Pristine EXCEPT !.dlen[c.t] = c.to]
 
-Ops == {[k |-> "find", n |-> n] : n \in Names} \cup {[k |-> "verify", n |-> ""], [k |-> "objects", n |-> ""]}
+Ops == {[k |-> "find", n |-> n] : n \in Names}
+       \cup {[k |-> "publish", n |-> "X"], [k |-> "verify", n |-> ""], [k |-> "objects", n |-> ""]}
 
 -----------------------------------------------------------------------------
 (* reading *)
@@ -101,7 +102,7 @@ Open(s, a, op) ==
   IF a.trunc \in {"magic", "meta"} THEN End(s, "ioerr")
   ELSE IF a.magic # "ok" THEN End(s, "corrupt")
   ELSE IF a.bc = 0 /\ Variant = "intended" THEN End(s, "corrupt")
-  ELSE IF op.k = "find"
+  ELSE IF op.k \in {"find", "publish"}
     THEN IF a.bc = 0 THEN End(s, "panic")                                     \* l. 951: % 0
          ELSE LET k == RawHash[op.n] % a.bc IN [s EXCEPT !.pc = "walk", !.b = k, !.cur = SlotPtr(a, k)]
   ELSE [s EXCEPT !.pc = "walk", !.b = 0, !.cur = IF a.bc = 0 /\ op.k = "verify" THEN "nil" ELSE SlotPtr(a, 0)]
@@ -114,6 +115,18 @@ FindStep(s, a, op) ==
        IF h # "hdr" THEN End(s, h)
        ELSE IF NameMatches(a, s.cur, op.n) THEN End(s, DataAt(a, s.cur))
        ELSE [s EXCEPT !.seen = s.seen \cup {s.cur}, !.cur = a.next[s.cur]]
+
+(* publish, l. 290-314: find (the name must be new), then find_empty (l. 522) walks the whole chain of empty objects *)
+PublishStep(s, a, op) ==
+  IF s.pc = "walk" THEN
+    IF s.cur = "nil" THEN [s EXCEPT !.pc = "empty", !.cur = SlotPtr(a, a.bc), !.seen = {}]
+    ELSE FindStep(s, a, op)
+  ELSE
+    IF s.cur = "nil" THEN End(s, "ok")
+    ELSE IF s.cur \in s.seen THEN Revisit(s)
+    ELSE LET h == HeaderAt(a, s.cur) IN
+         IF h # "hdr" THEN End(s, h)
+         ELSE [s EXCEPT !.seen = s.seen \cup {s.cur}, !.cur = a.next[s.cur]]
 
 (* verify, l. 145-202: every bucket chain with the hash check, then the empty chain, then the tiling check *)
 Tiles(got) ==                       \* l. 193-199: sorted by position, each must start where the previous ends
@@ -152,6 +165,7 @@ Step(s, a, op) ==
   LET s1 == [s EXCEPT !.steps = s.steps + 1] IN
   IF s.pc = "open" THEN Open(s1, a, op)
   ELSE CASE op.k = "find" -> FindStep(s1, a, op)
+         [] op.k = "publish" -> PublishStep(s1, a, op)
          [] op.k = "verify" -> VerifyStep(s1, a)
          [] op.k = "objects" -> ObjectsStep(s1, a)
 
